@@ -4,6 +4,7 @@ pub mod market;
 pub mod miner;
 pub mod minercheck;
 pub mod minerlife;
+pub mod penalties;
 pub mod util;
 
 pub mod c02;
@@ -16,6 +17,8 @@ pub mod c08;
 pub mod c09;
 pub mod c12;
 pub mod c13;
+pub mod c14;
+pub mod c15;
 pub mod c16;
 pub mod c17;
 pub mod c18;
